@@ -17,8 +17,9 @@ Count(s) == IF Len(s) = 1 THEN s[1] ELSE s[1] * s[2] * s[3]
 
 \* boundary grid for probabilities: 0, eps, 1/4, 1/2, 3/4, 1 - eps, 1 (as <<n, d>>)
 ProbGrid == << <<0, 1>>, <<1, 1000000>>, <<1, 4>>, <<1, 2>>, <<3, 4>>, <<999999, 1000000>>, <<1, 1>> >>
-\* grid for the regression objectives
-RealGrid == << <<-2, 1>>, <<-1, 4>>, <<0, 1>>, <<1, 1000000>>, <<1, 2>>, <<1, 1>>, <<3, 1>> >>
+\* grid for the regression objectives; 2^-26 next to 0 is a pair closer than the machine epsilon that is NOT equal
+\* (the "no slope at a == p" special cases of AE / RMSE must not swallow it)
+RealGrid == << <<-2, 1>>, <<-1, 4>>, <<0, 1>>, <<1, 67108864>>, <<1, 2>>, <<1, 1>>, <<3, 1>> >>
 GridOf(obj) == IF obj \in Probabilistic THEN ProbGrid ELSE RealGrid
 
 \* none / symmetric / one-sided with an infinite bound (Const(+-1, 0) evaluates to +-infinity) / degenerate
